@@ -18,6 +18,15 @@ from pjrpc.server.validators import BaseValidator
 
 from mc.vloop import VLoop
 
+from typing import Annotated
+
+from pjrpc.server.validators.pydantic import PydanticValidator
+
+
+class Inject:
+    """marker used in Annotated[...] to designate dependency-injected parameters"""
+
+
 NAMES = ['a', 'b', 'c', 'd', 'e', 'f']
 
 
@@ -56,11 +65,11 @@ def make_fn(sig, log, ctx_mode, inj, is_method=False, is_async=False):
     if inj:
         if not star:
             parts.append('*')
-        parts.append('inj: str = "INJ"')
+        parts.append('inj: Annotated[str, Inject] = "INJ"' if inj == 'annotated' else 'inj: str = "INJ"')
     names = [NAMES[i] for i in range(len(sig))]
     src = '%sdef f(%s):\n    _log.append(dict(%s))\n    return 1\n' % (
         'async ' if is_async else '', ', '.join(parts), ', '.join('%s=%s' % (n, n) for n in names))
-    ns = {'_log': log}
+    ns = {'_log': log, 'Annotated': Annotated, 'Inject': Inject}
     exec(src, ns)
     return ns['f'], src
 
@@ -96,11 +105,14 @@ def openrpc_params(doc, name):
 def gen_cases(ctx):
     for sig in signatures(ctx.pick(5, 6)):
         for ctx_mode in ('none', 'name', 'positional'):
-            for inj in (False, True):
+            for inj in (False, True, 'annotated'):
                 for flavour in ('function', 'view'):
                     if flavour == 'view' and ctx_mode != 'none':
                         continue      # views take the context through their constructor
-                    yield dict(sig=sig, ctx=ctx_mode, inj=inj, flavour=flavour)
+                    for validator in ('base', 'pydantic', 'pydantic-extra-ignore'):
+                        if validator != 'base' and (flavour == 'view' or len(sig) > 3):
+                            continue
+                        yield dict(sig=sig, ctx=ctx_mode, inj=inj, flavour=flavour, validator=validator)
 
 
 def run_case(case, rec):
@@ -109,12 +121,19 @@ def run_case(case, rec):
     names = [NAMES[i] for i in range(len(sig))]
     truth_names = sorted(names)
     truth_required = sorted(NAMES[i] for i, (k, d) in enumerate(sig) if not d)
-    pred = (lambda name, ann, default: name == 'inj')
+    if inj == 'annotated':
+        pred = (lambda name, ann, default: Inject in getattr(ann, '__metadata__', ()))
+    else:
+        pred = (lambda name, ann, default: name == 'inj')
+    vkind = case.get('validator', 'base')
     obs = []
     for disp in ('sync', 'async'):
         log = []
         d = pjrpc.server.AsyncDispatcher() if disp == 'async' else pjrpc.server.Dispatcher()
-        validator = BaseValidator(exclude_param=pred) if inj else None
+        if vkind == 'base':
+            validator = BaseValidator(exclude_param=pred) if inj else None
+        else:
+            validator = PydanticValidator(exclude_param=pred if inj else None, **({'extra': 'ignore'} if vkind.endswith('ignore') else {}))
         if flavour == 'view':
             fn, src = make_fn(sig, log, 'none', inj, is_method=True)
             if validator:
@@ -193,10 +212,50 @@ def run_case(case, rec):
                             flavour, kind, 'executed' if log else 'code %s' % code), dict(c, params=params), expected=-32602, observed=resp)
                 rec.outcomes['accepted' if code is None else str(code)] += 1
         obs.append((docs['openapi'], docs['openrpc']))
+        if ctx_mode == 'name' and flavour == 'function' and vkind == 'base' and disp == 'sync':
+            obs.append(twice_registered(case, sig, inj, pred, rec))
     rec.states += 1
     rec.traces += 1
     rec.nontrivial_n += 1 if (sig or ctx_mode != 'none' or inj) else 0
     return tuple(obs)
+
+
+def twice_registered(case, sig, inj, pred, rec):
+    """the same function registered as 'f' (context designated) and as 'g' (no context: ctx is an ordinary required parameter):
+    each registration's document must describe what that registration binds, whichever is called first"""
+    out = []
+    for first in ('g', 'f'):
+        log = []
+        fn, src = make_fn(sig, log, 'name', inj)
+        validator = BaseValidator(exclude_param=pred) if inj else None
+        if validator:
+            fn = validator.validate(fn)
+        d = pjrpc.server.Dispatcher()
+        d.add(fn, name='f', context='ctx')
+        d.add(fn, name='g')
+        ext_kw = dict(exclude_param=pred) if inj else {}
+        methods = list(d.registry.values())
+        doc = openapi.OpenAPI(info=openapi.Info(title='t', version='1'), schema_extractors=[PydanticSchemaExtractor(**ext_kw)],
+                              ).schema(path='/', methods_map={'': methods})
+        documented = {n: openapi_params(doc, n) for n in ('f', 'g')}
+        for target in (first, 'f', 'g', 'f'):
+            dn, dr = documented[target]
+            universe = sorted(set(dn) | {'zz', 'ctx'})
+            for r in range(len(universe) + 1):
+                for sub in itertools.combinations(universe, r):
+                    del log[:]
+                    text = json.dumps({'jsonrpc': '2.0', 'id': 1, 'method': target, 'params': {k: 1 for k in sub}})
+                    resp = json.loads(d.dispatch(text, context='CTX')[0])
+                    rec.transitions += 1
+                    code = resp.get('error', {}).get('code') if 'error' in resp else None
+                    satisfies = set(sub) <= set(dn) and set(dr) <= set(sub)
+                    if satisfies != (code != -32602):
+                        rec.violation('C17:function:same function registered with and without context: params %s the published schema %s' % (
+                            'satisfying' if satisfies else 'violating', 'refused with -32602' if satisfies else 'not refused'),
+                            dict(case, called_first=first, target=target, params=sorted(sub), source=src.split('\n')[0]),
+                            expected='-32602' if not satisfies else 'not -32602', observed=resp)
+                    out.append(code)
+    return tuple(out)
 
 
 def run(ctx):
@@ -215,7 +274,7 @@ def replay(doc):
     from mc.core import Recorder, jdump
     rec = Recorder()
     c = doc['case']
-    run_case(dict(sig=c['sig'], ctx=c['ctx'], inj=c['inj'], flavour=c['flavour']), rec)
+    run_case(dict(sig=c['sig'], ctx=c['ctx'], inj=c['inj'], flavour=c['flavour'], validator=c.get('validator', 'base')), rec)
     for v in rec.violations[:5]:
         print('VIOLATION-REPLAY signature=%s\n  case=%s\n  expected=%s\n  observed=%s' % (
             v['signature'], jdump(v['case'])[:400], jdump(v['expected'])[:300], jdump(v['observed'])[:300]))
